@@ -55,3 +55,9 @@ package authenticators
 
 //@ func (*genericAuthenticator).getSubjectInformation
 //@   props C10
+
+// ---- C01 / C04 / C05: an authenticator that reports success has produced a subject ----
+
+//@ iface (SubjectFactory).CreateSubject
+//@   props C01 C04 C05
+//@   ensures ret1 == nil ==> ret0 != nil
